@@ -49,13 +49,20 @@ func queueCase(c string) string {
 	eq := event.NewEventQueue(ch, threshold, time.Hour, prometheus.NewCounter(prometheus.CounterOpts{Name: "f"}))
 	clock.ClockInstance = nil
 	next := 0
-	var results []string
-	drain := func() []string {
-		var bs []string
+	// the consumer keeps the batches it received and looks at their content only after the whole history:
+	// a batch that shares its backing array with the queue's buffer is then seen overwritten
+	type opResult struct {
+		batches []event.Events
+		timeout bool
+		pending int
+	}
+	var results []opResult
+	drain := func() []event.Events {
+		var bs []event.Events
 		for {
 			select {
 			case b := <-ch:
-				bs = append(bs, batchString(b))
+				bs = append(bs, b)
 			default:
 				return bs
 			}
@@ -63,25 +70,37 @@ func queueCase(c string) string {
 	}
 	for _, op := range ops[1:] {
 		f := strings.Fields(op)
-		var bs []string
+		var r opResult
 		switch f[0] {
 		case "Q":
 			k, _ := strconv.Atoi(f[1])
 			eq.Queue(mkEvents(&next, k))
-			bs = drain()
+			r.batches = drain()
 		case "T":
 			clk.TickerCh <- time.Unix(0, 0)
 			select {
 			case b := <-ch:
-				bs = append(bs, batchString(b))
+				r.batches = append(r.batches, b)
 			case <-time.After(5 * time.Second):
-				bs = append(bs, "TIMEOUT")
+				r.timeout = true
 			}
-			bs = append(bs, drain()...)
+			r.batches = append(r.batches, drain()...)
 		}
-		results = append(results, fmt.Sprintf("%s len=%d", strings.Join(bs, ";"), eq.Len()))
+		r.pending = eq.Len()
+		results = append(results, r)
 	}
-	return strings.Join(results, " | ")
+	var out []string
+	for _, r := range results {
+		var bs []string
+		for _, b := range r.batches {
+			bs = append(bs, batchString(b))
+		}
+		if r.timeout {
+			bs = append([]string{"TIMEOUT"}, bs...)
+		}
+		out = append(out, fmt.Sprintf("%s len=%d", strings.Join(bs, ";"), r.pending))
+	}
+	return strings.Join(out, " | ")
 }
 
 func engineQueue(cases string) {
